@@ -45,6 +45,8 @@ class Feat:
         self.uncached_p = 4         # one in N cells is uncached
         self.allow_none = False     # some cells allow (and sometimes return) None
         self.item_base = False      # parameter formulas may choose another base space
+        self.export_safe = False    # only constructs inside the documented export subset
+        self.item_refs = True       # parameter formulas may return extra references
         self.__dict__.update(kw)
 
 
@@ -107,6 +109,9 @@ def int_ref_names(G, space):
 # ----------------------------------------------------------------------------
 # expressions
 
+EXPORT_SAFE = [False]      # set by generators that must stay inside the export subset
+
+
 def small_int():
     return st.integers(min_value=0, max_value=9)
 
@@ -131,6 +136,10 @@ def gen_call_args(draw, params, env_vars):
 def gen_call(draw, target, params, env_vars, allow_kw=True):
     args = gen_call_args(draw, params, env_vars)
     style = draw(st.sampled_from(["()", "()", "[]", "kw", "value"]))
+    if EXPORT_SAFE[0] and style in ("[]", "value") and target[0] != "name":
+        style = "()"        # exported cells are plain methods: no subscription / .value through attribute paths
+    if EXPORT_SAFE[0] and style == "value":
+        style = "()"
     if target[0] == "name" and style in ("[]", "value"):
         # inside formulas a cells reached *by name* is bound to a plain callable in this
         # version (no subscription / .value); attribute paths give the Cells object
@@ -352,6 +361,8 @@ def gen_formula_spec(draw, G, space, feat):
     params = [[{"x": "p", "y": "q"}[p], d] for p, d in params]
     f = {"params": params, "ret": None, "form": draw(st.sampled_from(["lambda", "def"]))}
     k = draw(st.integers(0, 5))
+    if not feat.item_refs:
+        return f
     if k <= 1:
         f["ret"] = {"base": None, "refs": {"k0": ["bin", "+", ["var", params[0][0]], ["lit", draw(small_int())]]}}
     elif k == 2 and feat.item_base:
@@ -453,6 +464,12 @@ def gen_model_ops(draw, feat, G=None):
             if draw(st.integers(0, 2)) == 0:
                 sp = G.space(tuple(p))
                 mode = draw(st.sampled_from([None, "auto", "absolute"]))
+                if feat.export_safe:
+                    anc = sp
+                    while anc is not None:
+                        if anc.formula is not None:
+                            mode = "absolute"   # relative references inside ItemSpaces are outside the export subset
+                        anc = anc.parent
                 # auto/relative targets are the definer's own cells (the case C10 states for static
                 # derivation); other targets are bound absolutely, so that no deriving space ends up
                 # with a reference to a non-existent counterpart
